@@ -133,6 +133,7 @@ struct Harness : HB {
 	void doRemove(int id, const char * who) {
 		bool expect = att(id);
 		bool got = A::remove(*t, handleOf[id]);
+		ctx.tagStep(got ? "+r1" : "+r0");
 		ctx.log(fmt("%sremove(#%d) -> %d", who, id, (int)got)); ctx.obs(got);
 		detach(id);
 		if(got != expect) ctx.fail("remove-result", fmt("remove(#%d) returned %d, expected %d", id, (int)got, (int)expect));
